@@ -22,12 +22,19 @@ def C02_roundtrip_statement : Prop :=
 
 /-- The recursive round trip, at every depth and for every answer of the similarity predicates:
     if the generic differ returns `d` for `(a, b)` then `patch a d` succeeds and is exactly `b`.
-    Hypotheses: no booleans / floats in the documents (Python `==` would identify `1`, `1.0`, `True`:
-    finding F-eq), dict keys sorted, and opcode answers that satisfy difflib's contract. -/
+    Hypotheses: the documents are compatible (`Compat`: nowhere does the differ compare a boolean with
+    a 0/1-valued number with Python `==` — exactly the complement of finding F-eq), dict keys sorted,
+    and opcode answers that satisfy difflib's contract. -/
 theorem C02_roundtrip_partial (O : Oracle) (hO : OracleOK O) (a b : J) (d : List Op)
+    (ca : a.canonical = true) (cb : b.canonical = true) (hab : Compat a b)
+    (h : diffGeneric O a b = .ok d) : patch a d = .ok b :=
+  diffAt_generic_roundtrip O hO bigFuel "" a b d ca cb hab h
+
+/-- special case with a decidable hypothesis: documents without booleans and floats -/
+theorem C02_roundtrip_intsOnly (O : Oracle) (hO : OracleOK O) (a b : J) (d : List Op)
     (ca : a.canonical = true) (cb : b.canonical = true) (ia : a.intsOnly = true) (ib : b.intsOnly = true)
     (h : diffGeneric O a b = .ok d) : patch a d = .ok b :=
-  diffAt_generic_roundtrip O hO bigFuel "" a b d ca cb ia ib h
+  C02_roundtrip_partial O hO a b d ca cb (compat_ints a b ia ib) h
 
 /-- non-vacuity: a nested document pair with a list insertion, a dict change and a string edit, and an
     oracle whose answers satisfy the contract; the differ returns a diff and the hypotheses hold -/
